@@ -135,6 +135,12 @@ def main():
         for sec, why in tinfo.get("failed_sections", {}).items():
             if pid in why.get("properties", []):
                 proof_broken.append("translator: section %s of the source is no longer recognised (%s); the model keeps the last known-good values" % (sec, why.get("why")))
+        # statement-level shape facts of the transcribed algorithms that no longer hold in the source
+        groups = [pid] + (["C15"] if pid == "C09" else [])
+        for grp in groups:
+            for name, okf in tinfo.get("flow_shapes", {}).get(grp, {}).items():
+                if not okf:
+                    proof_broken.append("translator: the source no longer contains the statement the model transcribes: %s.%s (theorem Fs.Shapes.source_shape_%s)" % (grp, name, grp))
     targets = ["fsmodel"] + list(P.get("lean_modules", []))
     lake_ok, lake_out = build.lake_build(targets)
     failed_modules = []
